@@ -333,6 +333,7 @@ func genSpecs(r *rand.Rand, thorough bool) []*Spec {
 			}
 		}
 		s.K = 3 + r.Intn(18)
+		s.DupSub = i%3 == 0
 		out = append(out, s)
 	}
 	// sequences on the oddly named scopes of fixtures/c07scopes.frugal: the
@@ -638,7 +639,7 @@ func (m *monitor) raceSample(specs []*Spec) {
 
 func parent() int {
 	run := ev.New("C07", ev.ArgTier(), "exploration")
-	run.Rule("one case = one sequence: (broker nats|stomp, protocol, subscriber factory and worker count, scope operation, prefix variable value, 50-2000 interleaved steps of valid publishes through the emitted publisher / malformed raw publishes of 0-3 kinds on the same subject / foreign-topic publishes, optional in-flight burst at Unsubscribe with a slow handler, k publishes after Unsubscribe returned); judged on the invocation logs of two emitted subscribers (A unsubscribed mid-way, B subscribed throughout); plus sequences on the oddly named scopes of fixtures/c07scopes.frugal (user_events, Api, http_url_Id, alerts, Id_map) and shared-provider sequences (2-3 live subscriptions on different topics through ONE scope provider / subscriber transport factory, valid publishes interleaved on all topics, each log must hold exactly its own topic's messages, the first subscription unsubscribed mid-way) concurrent-publisher sequences (4 goroutines publish 1500-2999 messages each at the same time through ONE emitted publisher, goroutine i to topic i = other prefix-variable value / other operation; one single-worker subscriber per topic on another connection; exactly once, own topic only, per-topic order), NATS prompt sequences (subscriber's connection behind a relay that delays client->server bytes by 20-59 ms without dropping or reordering, publisher on its own connection, first 5 publishes immediately after Subscribe returned nil) and STOMP backpressure sequences (handler held at its first invocation while a burst of 45-104 messages arrives, 20 frames published through the subscriber's own connection, handler released: everything must still be delivered once; a stall is decided from the goroutine dump: processMessages parked in the ACK send, go-stomp's processLoop and Subscription.readLoop parked on the full Subscription.C); end of stream = sentinel seen by a raw tap subscriber, then by the emitted subscribers or their worker goroutines established dead / idle from a goroutine dump; distinct = (broker, protocol, factory, workers, operation, malformed-kind set, foreign/in-flight/slow/inject/prefix flags); the list is a pure function of (seed, tier)")
+	run.Rule("one case = one sequence: (broker nats|stomp, protocol, subscriber factory and worker count, scope operation, prefix variable value, 50-2000 interleaved steps of valid publishes through the emitted publisher / malformed raw publishes of 0-3 kinds on the same subject / foreign-topic publishes, about 1 valid message in 40 with more than 64 KiB of FContext headers (one 70 KiB value or 50 x 4 KiB), in a third of the sequences a rejected second Subscribe on A's own transport before the traffic starts, optional in-flight burst at Unsubscribe with a slow handler, k publishes after Unsubscribe returned); judged on the invocation logs of two emitted subscribers (A unsubscribed mid-way, B subscribed throughout); plus sequences on the oddly named scopes of fixtures/c07scopes.frugal (user_events, Api, http_url_Id, alerts, Id_map) and shared-provider sequences (2-3 live subscriptions on different topics through ONE scope provider / subscriber transport factory, valid publishes interleaved on all topics, each log must hold exactly its own topic's messages, the first subscription unsubscribed mid-way) concurrent-publisher sequences (4 goroutines publish 1500-2999 messages each at the same time through ONE emitted publisher, goroutine i to topic i = other prefix-variable value / other operation; one single-worker subscriber per topic on another connection; exactly once, own topic only, per-topic order), NATS prompt sequences (subscriber's connection behind a relay that delays client->server bytes by 20-59 ms without dropping or reordering, publisher on its own connection, first 5 publishes immediately after Subscribe returned nil) and STOMP backpressure sequences (handler held at its first invocation while a burst of 45-104 messages arrives, 20 frames published through the subscriber's own connection, handler released: everything must still be delivered once; a stall is decided from the goroutine dump: processMessages parked in the ACK send, go-stomp's processLoop and Subscription.readLoop parked on the full Subscription.C); end of stream = sentinel seen by a raw tap subscriber, then by the emitted subscribers or their worker goroutines established dead / idle from a goroutine dump; distinct = (broker, protocol, factory, workers, operation, malformed-kind set, foreign/in-flight/slow/inject/prefix flags); the list is a pure function of (seed, tier)")
 	run.Assume("embedded nats-server v2.10.11 and nats.go deliver one connection's publishes on a subject in order to every subscriber, and nothing after UNSUB was processed by the client")
 	run.Assume("the rig's STOMP 1.2 broker (rig/stomp_broker.go, tested against the go-stomp client) fans out per destination in SEND order, exact destination match, no redelivery of un-acked messages, RECEIPT for every frame that asks")
 	run.Assume("'subscribed' starts when Subscribe has returned AND the broker has the subscription (go-stomp's Subscribe does not wait for the broker; the monitor waits on the broker's own table)")
